@@ -249,11 +249,11 @@ void* detransposeData(void* data, int dataType, size_t r5, size_t r4, size_t r3,
 		else if(dim==2)
 		{
 			size_t i, j, s = 0;
-			for(i=0;i<r2;i++)
-				for(j=0;j<r1;j++)
+			for(i=0;i<r1;i++) //the transposed array has r1 rows of r2 elements
+				for(j=0;j<r2;j++)
 				{
-					//size_t s = i*r1+j;
-					size_t t = j*r2+i;
+					//size_t s = i*r2+j;
+					size_t t = j*r1+i;
 					new_data[t] = ori_data[s++];					
 				}
 		}
@@ -297,11 +297,11 @@ void* detransposeData(void* data, int dataType, size_t r5, size_t r4, size_t r3,
 		else if(dim==2)
 		{
 			size_t i, j, s = 0;
-			for(i=0;i<r2;i++)
-				for(j=0;j<r1;j++)
+			for(i=0;i<r1;i++) //the transposed array has r1 rows of r2 elements
+				for(j=0;j<r2;j++)
 				{
-					//size_t s = i*r1+j;
-					size_t t = j*r2+i;
+					//size_t s = i*r2+j;
+					size_t t = j*r1+i;
 					new_data[t] = ori_data[s++];					
 				}
 		}
@@ -345,11 +345,11 @@ void* detransposeData(void* data, int dataType, size_t r5, size_t r4, size_t r3,
 		else if(dim==2)
 		{
 			size_t i, j, s = 0;
-			for(i=0;i<r2;i++)
-				for(j=0;j<r1;j++)
+			for(i=0;i<r1;i++) //the transposed array has r1 rows of r2 elements
+				for(j=0;j<r2;j++)
 				{
-					//size_t s = i*r1+j;
-					size_t t = j*r2+i;
+					//size_t s = i*r2+j;
+					size_t t = j*r1+i;
 					new_data[t] = ori_data[s++];					
 				}
 		}
@@ -393,11 +393,11 @@ void* detransposeData(void* data, int dataType, size_t r5, size_t r4, size_t r3,
 		else if(dim==2)
 		{
 			size_t i, j, s = 0;
-			for(i=0;i<r2;i++)
-				for(j=0;j<r1;j++)
+			for(i=0;i<r1;i++) //the transposed array has r1 rows of r2 elements
+				for(j=0;j<r2;j++)
 				{
-					//size_t s = i*r1+j;
-					size_t t = j*r2+i;
+					//size_t s = i*r2+j;
+					size_t t = j*r1+i;
 					new_data[t] = ori_data[s++];					
 				}
 		}
